@@ -453,6 +453,41 @@ class Trace:
         return f"Trace(origin={self.origin!r}, steps={[s[0] + (':' + str(s[1]) if len(s) > 1 and isinstance(s[1], str) else '') for s in self.steps]})"
 
 
+_GOOD_VARIANTS = {"Ok": ("Ok",), "Some": ("Some",), "Continue": ("Ok", "Some", "Continue"), "Err": ("Err",), "Break": ("Err", "None", "Break")}
+
+
+def _variant_directed(steps, ds):
+    """Among several definitions of a local, the single one that can yield the variant named by the nearest pending
+    `downcast` step (looking back over plain moves and frame hops); None when no variant is pending or the choice
+    is not unique."""
+    want = None
+    for st in reversed(steps):
+        if st[0] in ("use", "enter_caller", "enter_callee"):
+            continue
+        if st[0] == "call" and st[1] == "std::ops::Try::branch":
+            continue  # `?` keeps the variant: Continue(x) for Ok(x)/Some(x)
+        if st[0] == "field":
+            continue  # the `.0` that goes with the downcast
+        if st[0] == "downcast":
+            want = _GOOD_VARIANTS.get(st[1])
+        break
+    if not want:
+        return None
+    cands = []
+    for d in ds:
+        bb, idx, kind, payload = d
+        if kind == "assign" and payload["rv"]["k"] == "aggregate" and payload["rv"].get("variant") is not None:
+            if payload["rv"]["variant"] in want:
+                cands.append(d)
+            continue
+        if kind == "call" and (fn_of(payload) or {}).get("def") == "std::ops::FromResidual::from_residual":
+            if "Err" in want or "None" in want:
+                cands.append(d)
+            continue
+        cands.append(d)  # anything else may yield any variant
+    return cands[0] if len(cands) == 1 else None
+
+
 def trace(body, op, passthrough_extra=(), through_calls=True, _depth=0, _tr=None):
     """Trace an operand (or a place dict with 'l') back to its origin through copies, moves,
     references, field projections, casts and pass-through calls."""
@@ -494,9 +529,15 @@ def trace(body, op, passthrough_extra=(), through_calls=True, _depth=0, _tr=None
         tr.origin = ("partial", l)
         return tr
     if len(ds) > 1:
-        # several definitions: drop flags and loop variables; report as multi
-        tr.origin = ("multi", l, ds)
-        return tr
+        # several definitions. When the value is being read through `(x as V).0` (the nearest pending projection
+        # names a variant), only a definition that can produce V can be its source: `_0 = Ok(t)` / `_0 = Err(e)` /
+        # `_0 = from_residual(..)` read under `as Ok` comes from the first one
+        sel = _variant_directed(tr.steps, ds)
+        if sel is None:
+            # drop flags and loop variables; report as multi
+            tr.origin = ("multi", l, ds)
+            return tr
+        ds = [sel]
     bb, idx, kind, payload = ds[0]
     if kind == "call":
         f = fn_of(payload)
@@ -531,9 +572,14 @@ def trace(body, op, passthrough_extra=(), through_calls=True, _depth=0, _tr=None
         k_ = len(st) - 1
         open_refs = 0
         env_deref = None
+        through_try = False
         while k_ >= 0:
             kind_ = st[k_][0]
             if kind_ in ("use", "enter_caller", "enter_callee"):
+                k_ -= 1
+            elif kind_ == "call" and st[k_][1] == "std::ops::Try::branch":
+                # `?`: Continue(x) is the payload of Ok(x) / Some(x)
+                through_try = True
                 k_ -= 1
             elif kind_ == "ref":
                 # `&x` taken closer to the origin ...
@@ -556,7 +602,7 @@ def trace(body, op, passthrough_extra=(), through_calls=True, _depth=0, _tr=None
         cut = None
         if k_ >= 0 and st[k_][0] == "field":
             name, cut = st[k_][1], (k_, k_ + 1)
-        elif k_ >= 1 and st[k_][0] == "downcast" and st[k_ - 1][0] == "field" and rv.get("variant") == st[k_][1]:
+        elif k_ >= 1 and st[k_][0] == "downcast" and st[k_ - 1][0] == "field" and (rv.get("variant") == st[k_][1] or (through_try and st[k_][1] == "Continue" and rv.get("variant") in ("Ok", "Some"))):
             name, cut = st[k_ - 1][1], (k_ - 1, k_ + 1)
         if name is not None:
             if rv["agg"] == "tuple" and name.isdigit() and int(name) < len(rv["ops"]):
@@ -1530,6 +1576,16 @@ class PathSens:
                             f2[dkey] = pf_
                             if ppf_ is not None:
                                 f2[self._pk(dkey)] = ppf_
+                if f and not dest["pr"] and f["def"] in ("std::result::Result::<T, E>::map_or", "std::option::Option::<T>::map_or") and len(t["args"]) == 3 and t["args"][2].get("k") == "fn" and lab not in ("call", "maycall"):
+                    # `r.map_or(Enum::A(x), Enum::B)`: the default's variant or the one the constructor builds
+                    df_, _, _ = self._operand_fact(facts, path, t["args"][1])
+                    ctor = t["args"][2]
+                    adt_ = self.sup.crate.adts.get(ctor.get("def", "").rsplit("::", 1)[0])
+                    if df_ is not None and df_[0] == "var" and adt_ and adt_.get("kind") == "enum":
+                        vi_ = [v_["idx"] for v_ in adt_["variants"] if v_["name"] == ctor.get("name")]
+                        if vi_:
+                            allv = {v_["idx"] for v_ in adt_["variants"]}
+                            f2[dkey] = ("var", df_[1]) if vi_[0] == df_[1] else ("notvar", frozenset(allv - {df_[1], vi_[0]}))
                 if f and not dest["pr"] and f["def"] in _VARIANT_AND_TESTS and run_on is not None and has_may:
                     # `r.is_err_and(|e| ..)`: the closure's bool when it runs (handled by the closure's return edge),
                     # the constant answer when it does not
